@@ -7,7 +7,7 @@ use crate::world::*;
 
 pub fn alpha() -> Alpha {
     Alpha {
-        kinds: vec![Kind::Pub1, Kind::Pub2, Kind::Sub, Kind::Ping],
+        kinds: vec![Kind::Pub0, Kind::Pub1, Kind::Pub2, Kind::Sub, Kind::Unsub, Kind::Ping, Kind::Disc],
         max_ops: 3,
         max_conc: 3,
         pub_ack_variants: vec![(0, 0), (2, 1)],
